@@ -1,6 +1,7 @@
 //! Reference models: transcriptions of the protocol definitions, independent of the
 //! implementation's helpers (DESIGN.md section 3).
 
+pub mod canon;
 pub mod mem;
 pub mod rfc6962;
 pub mod smt;
